@@ -373,7 +373,8 @@ theorem TearsDown.registering {s : Sys F} {e : Ev} {j : Nat} (h : TearsDown s e 
 /-- **One event, one link, registration status.**  Exactly one of: *kept* (registering-ness and the
 connected flag unchanged), *REG3* (the event is a REG3 on this link: phase `warming 0 now`, connected),
 *torn down* (`TearsDown`: phase registering, not connected). -/
-theorem phase_step (s : Sys F) (e : Ev) (j : Nat) (l : FLink F) (hl : s.links[j]? = some l) :
+theorem phase_step (s : Sys F) (e : Ev) (hnr : e.isReload = false) (j : Nat) (l : FLink F)
+    (hl : s.links[j]? = some l) :
     ∃ l', (step s e).1.links[j]? = some l' ∧ l'.core.connId = l.core.connId ∧
       (((l'.core.phase = .registering ↔ l.core.phase = .registering) ∧ l'.core.connected = l.core.connected ∧
           ¬ Reg3On s e j) ∨
@@ -429,32 +430,33 @@ theorem phase_step (s : Sys F) (e : Ev) (j : Nat) (l : FLink F) (hl : s.links[j]
       exact ⟨rfl, Or.inr (Or.inr ⟨⟨l, _, hl, hl', Or.inr (Or.inl ⟨now, cid, data, rfl, hidx,
         (Hk.regEvent_of_type s.reg j data now).1.1 hev, rfl⟩)⟩, rfl, rfl⟩)⟩
   | client now pkt =>
-    obtain ⟨l', hl', hs⟩ := (Hk.step_link s (.client now pkt)).1 j l hl
+    obtain ⟨l', hl', hs⟩ := (Hk.step_link s (.client now pkt) rfl).1 j l hl
     exact ⟨l', hl', hgen l' hl' hs (fun _ _ _ h => by cases h)⟩
   | flush now =>
-    obtain ⟨l', hl', hs⟩ := (Hk.step_link s (.flush now)).1 j l hl
+    obtain ⟨l', hl', hs⟩ := (Hk.step_link s (.flush now) rfl).1 j l hl
     exact ⟨l', hl', hgen l' hl' hs (fun _ _ _ h => by cases h)⟩
   | hk now =>
-    obtain ⟨l', hl', hs⟩ := (Hk.step_link s (.hk now)).1 j l hl
+    obtain ⟨l', hl', hs⟩ := (Hk.step_link s (.hk now) rfl).1 j l hl
     exact ⟨l', hl', hgen l' hl' hs (fun _ _ _ h => by cases h)⟩
   | setCfg c =>
-    obtain ⟨l', hl', hs⟩ := (Hk.step_link s (.setCfg c)).1 j l hl
+    obtain ⟨l', hl', hs⟩ := (Hk.step_link s (.setCfg c) rfl).1 j l hl
     exact ⟨l', hl', hgen l' hl' hs (fun _ _ _ h => by cases h)⟩
   | crit d =>
-    obtain ⟨l', hl', hs⟩ := (Hk.step_link s (.crit d)).1 j l hl
+    obtain ⟨l', hl', hs⟩ := (Hk.step_link s (.crit d) rfl).1 j l hl
     exact ⟨l', hl', hgen l' hl' hs (fun _ _ _ h => by cases h)⟩
   | failNext c =>
-    obtain ⟨l', hl', hs⟩ := (Hk.step_link s (.failNext c)).1 j l hl
+    obtain ⟨l', hl', hs⟩ := (Hk.step_link s (.failNext c) rfl).1 j l hl
     exact ⟨l', hl', hgen l' hl' hs (fun _ _ _ h => by cases h)⟩
   | failBind c =>
-    obtain ⟨l', hl', hs⟩ := (Hk.step_link s (.failBind c)).1 j l hl
+    obtain ⟨l', hl', hs⟩ := (Hk.step_link s (.failBind c) rfl).1 j l hl
     exact ⟨l', hl', hgen l' hl' hs (fun _ _ _ h => by cases h)⟩
   | syncTimeout =>
-    obtain ⟨l', hl', hs⟩ := (Hk.step_link s (.syncTimeout)).1 j l hl
+    obtain ⟨l', hl', hs⟩ := (Hk.step_link s (.syncTimeout) rfl).1 j l hl
     exact ⟨l', hl', hgen l' hl' hs (fun _ _ _ h => by cases h)⟩
   | stamp idx weak ld ccb cct =>
-    obtain ⟨l', hl', hs⟩ := (Hk.step_link s (.stamp idx weak ld ccb cct)).1 j l hl
+    obtain ⟨l', hl', hs⟩ := (Hk.step_link s (.stamp idx weak ld ccb cct) rfl).1 j l hl
     exact ⟨l', hl', hgen l' hl' hs (fun _ _ _ h => by cases h)⟩
+  | reload rnow raddrs routs => cases hnr
 
 /-- The registration status of link `j` as a fold over the history: set by a REG3 on the link, cleared by a
 tear-down of the link, otherwise unchanged.  `g` is the status at the start. -/
@@ -471,10 +473,10 @@ theorem RegSince_congr (j : Nat) (s : Sys F) (evs : List Ev) {g g' : Prop} (h : 
     exact ih _ (by rw [h])
 
 /-- One event: the status after it. -/
-theorem registered_step (s : Sys F) (e : Ev) (j : Nat) (l l' : FLink F) (hl : s.links[j]? = some l)
-    (hl' : (step s e).1.links[j]? = some l') :
+theorem registered_step (s : Sys F) (e : Ev) (hnr : e.isReload = false) (j : Nat) (l l' : FLink F)
+    (hl : s.links[j]? = some l) (hl' : (step s e).1.links[j]? = some l') :
     l'.core.phase ≠ .registering ↔ (Reg3On s e j ∨ (l.core.phase ≠ .registering ∧ ¬ TearsDown s e j)) := by
-  obtain ⟨l'', h1, -, h2⟩ := phase_step s e j l hl
+  obtain ⟨l'', h1, -, h2⟩ := phase_step s e hnr j l hl
   rw [hl'] at h1; cases h1
   rcases h2 with ⟨a, -, c⟩ | ⟨a, ⟨now, b⟩, -⟩ | ⟨a, b, -⟩
   · constructor
@@ -504,27 +506,37 @@ theorem registered_step (s : Sys F) (e : Ev) (j : Nat) (l l' : FLink F) (hl : s.
 
 /-- **History-level reading**: along any run, link `j` is registered (phase ≠ registering) at the end iff
 `RegSince` holds of the history, started from its status in the initial state. -/
-theorem registered_iff_regSince (s : Sys F) (evs : List Ev) (j : Nat) (l0 lN : FLink F)
+theorem registered_iff_regSince (s : Sys F) (evs : List Ev) (hnr : NoReload evs) (j : Nat) (l0 lN : FLink F)
     (h0 : s.links[j]? = some l0) (hN : (run s evs).1.links[j]? = some lN) :
     lN.core.phase ≠ .registering ↔ RegSince j s evs (l0.core.phase ≠ .registering) := by
   induction evs generalizing s l0 with
   | nil => simp only [run] at hN; rw [h0] at hN; cases hN; exact Iff.rfl
   | cons e evs ih =>
     simp only [run] at hN
-    obtain ⟨l1, h1, -⟩ := phase_step s e j l0 h0
-    rw [ih (step s e).1 l1 h1 hN]
+    obtain ⟨l1, h1, -⟩ := phase_step s e hnr.head j l0 h0
+    rw [ih (step s e).1 hnr.tail l1 h1 hN]
     simp only [RegSince]
-    exact RegSince_congr j _ evs (registered_step s e j l0 l1 h0 h1)
+    exact RegSince_congr j _ evs (registered_step s e hnr.head j l0 l1 h0 h1)
 
 /-- A registering link is not connected: an invariant of every run. -/
 def RegOk (s : Sys F) : Prop := ∀ l ∈ s.links, l.core.phase = .registering → l.core.connected = false
 
 theorem RegOk.step {s : Sys F} (h : RegOk s) (e : Ev) : RegOk (step s e).1 := by
   intro l' hl' hp
+  cases hnr : e.isReload with
+  | true =>
+    -- a reload: retained links keep their record, fresh links are `new_registering` (not connected)
+    cases e with
+    | reload now addrs outs =>
+      rcases mem_reload hl' with ⟨h1, -⟩ | ⟨id, a, -, -, rfl⟩
+      · exact h l' h1 hp
+      · rfl
+    | _ => cases hnr
+  | false =>
   obtain ⟨j, hj, hget⟩ := List.getElem_of_mem hl'
-  have hlen := (Hk.step_link s e).2.1
+  have hlen := (Hk.step_link s e hnr).2.1
   have hj' : j < s.links.length := by omega
-  obtain ⟨l'', h1, -, h2⟩ := phase_step s e j s.links[j] (List.getElem?_eq_getElem hj')
+  obtain ⟨l'', h1, -, h2⟩ := phase_step s e hnr j s.links[j] (List.getElem?_eq_getElem hj')
   have : l'' = l' := by
     have := List.getElem?_eq_getElem hj
     rw [h1, hget] at this; exact Option.some.inj this
@@ -691,14 +703,17 @@ link; or the event is a REG3 (type 0x9202) on this link's socket and the link is
 connected; or the event tore the link down (`TearsDown`: failed threshold send + `mark_for_recovery` in a
 `client` event, REG_ERR 0x9210 on this link's socket, housekeeping reconnect of the timed-out link) and the
 link is now registering and not connected.  In particular `phase` leaves `registering` ONLY by a REG3 on
-that link and enters it ONLY by a tear-down. -/
-theorem C04_registration_status_step (s : Sys F) (e : Ev) (j : Nat) (l : FLink F) (hl : s.links[j]? = some l) :
+that link and enters it ONLY by a tear-down.
+`hnr`: over events / runs that keep the link set (no `Ev.reload`); a reload keeps the whole record of every retained link
+(`Props/SysReload.lean: reload_frame`) and the theorem applies again from the state after it. -/
+theorem C04_registration_status_step (s : Sys F) (e : Ev) (hnr : e.isReload = false) (j : Nat) (l : FLink F)
+    (hl : s.links[j]? = some l) :
     ∃ l', (step s e).1.links[j]? = some l' ∧ l'.core.connId = l.core.connId ∧
       (((l'.core.phase = .registering ↔ l.core.phase = .registering) ∧ l'.core.connected = l.core.connected ∧
           ¬ Reg3On s e j) ∨
        (Reg3On s e j ∧ (∃ now, l'.core.phase = .warming 0 now) ∧ l'.core.connected = true) ∨
        (TearsDown s e j ∧ l'.core.phase = .registering ∧ l'.core.connected = false)) :=
-  phase_step s e j l hl
+  phase_step s e hnr j l hl
 
 /-- **(c) History-level reading of "has completed registration since its last reset".**  Along ANY run,
 link `j` is registered at the end (`phase ≠ registering`, what eligibility tests) IFF
@@ -707,14 +722,17 @@ link `j` is registered at the end (`phase ≠ registering`, what eligibility tes
   of `post` tears link `j` down
 — i.e. iff a REG3 was processed on it after its last tear-down (`mark_for_recovery` after a failed send,
 REG_ERR, `reset_for_reconnect`).  (`NoTear`, `TearsDown`, `Reg3On` are evaluated on the states the run
-passes through.) -/
-theorem C04_registered_iff_reg3_since_teardown (s : Sys F) (evs : List Ev) (j : Nat) (l0 lN : FLink F)
+passes through.)
+`hnr`: over events / runs that keep the link set (no `Ev.reload`); a reload keeps the whole record of every retained link
+(`Props/SysReload.lean: reload_frame`) and the theorem applies again from the state after it. -/
+theorem C04_registered_iff_reg3_since_teardown (s : Sys F) (evs : List Ev) (hnr : NoReload evs) (j : Nat)
+    (l0 lN : FLink F)
     (h0 : s.links[j]? = some l0) (hN : (run s evs).1.links[j]? = some lN) :
     lN.core.phase ≠ .registering ↔
       ((l0.core.phase ≠ .registering ∧ NoTear j s evs) ∨
        ∃ pre e post, evs = pre ++ e :: post ∧ Reg3On (run s pre).1 e j ∧
          NoTear j (run s (pre ++ [e])).1 post) := by
-  rw [registered_iff_regSince s evs j l0 lN h0 hN, regSince_iff]
+  rw [registered_iff_regSince s evs hnr j l0 lN h0 hN, regSince_iff]
 
 /-- The vocabulary of (c), spelled out. -/
 theorem C04_history_vocabulary (s : Sys F) (e : Ev) (evs : List Ev) (j : Nat) :
@@ -733,7 +751,8 @@ theorem C04_history_vocabulary (s : Sys F) (e : Ev) (evs : List Ev) (j : Nat) :
   ⟨Iff.rfl, Iff.rfl, Iff.rfl, Iff.rfl⟩
 
 /-- **A registering link is not connected** — in every state reachable from one where that holds (fresh
-links: `new_registering` is registering and not connected). -/
+links: `new_registering` is registering and not connected).  Every event, `Ev.reload` included: a retained link keeps
+its record, an added link is `new_registering`. -/
 theorem C04_registering_not_connected_run (s : Sys F) (evs : List Ev)
     (h : ∀ l ∈ s.links, l.core.phase = .registering → l.core.connected = false) :
     ∀ l ∈ (run s evs).1.links, l.core.phase = .registering → l.core.connected = false :=
